@@ -7,9 +7,9 @@ import os, re, json, glob, shutil
 final = {}
 if os.path.exists('/tmp/seed2res/final.log'):
     for line in open('/tmp/seed2res/final.log'):
-        m = re.match(r'(seed[23]out) (C\d\d)-(\d) check=(C\d\d) rc=(\d+) ?(.*)', line.strip())
+        m = re.match(r'(seed[234]out) (C\d\d)-(\d) check=(C\d\d) rc=(\d+) ?(.*)', line.strip())
         if m:
-            rnd = 'r2' if m.group(1) == 'seed2out' else 'r3'
+            rnd = {'seed2out': 'r2', 'seed3out': 'r3', 'seed4out': 'r4'}[m.group(1)]
             txt = m.group(6).strip()
             sub = re.search(r'\[subset: (.*)\]$', txt)
             rec = {'exit': int(m.group(5)), 'first_violation': re.sub(r'\s*\[subset: .*\]$', '', txt)}
@@ -18,7 +18,7 @@ if os.path.exists('/tmp/seed2res/final.log'):
 rows = []
 OLD = set(open('/tmp/old_harnesses.txt').read().split()) if os.path.exists('/tmp/old_harnesses.txt') else set()
 LATE = {'C01-r2-1', 'C01-r2-2', 'C04-r2-1', 'C04-r2-2', 'C06-r2-1', 'C06-r2-2'}
-for rnd, base, pref in (('r2', '/tmp/seed2out', ''), ('r3', '/tmp/seed3out', 'r3_')):
+for rnd, base, pref in (('r2', '/tmp/seed2out', ''), ('r3', '/tmp/seed3out', 'r3_'), ('r4', '/tmp/seed4out', 'r4_')):
     for d in sorted(glob.glob(base + '/C[0-9][0-9]/[0-9]')):
         if not os.path.exists(d + '/patch.diff'): continue
         prop, n = d.split('/')[-2], d.split('/')[-1]
@@ -33,7 +33,7 @@ for rnd, base, pref in (('r2', '/tmp/seed2out', ''), ('r3', '/tmp/seed3out', 'r3
         cj = f"/tmp/seed2res/{pref}{prop}-{n}.json"
         if os.path.exists(cj): conf = json.load(open(cj))
         files = re.findall(r'^\+\+\+ b/(\S+)', open(d + '/patch.diff').read(), re.M)
-        first_run = conf.get('check', {})
+        first_run = {k: v for k, v in conf.get('check', {}).items() if v.get('exit', -1) >= 0}
         ev = dict(final.get(sid, {}))
         caught = [p for p, r in ev.items() if r['exit'] == 1]
         first_caught = [p for p, r in first_run.items() if r['exit'] == 1]
@@ -49,7 +49,7 @@ for rnd, base, pref in (('r2', '/tmp/seed2out', ''), ('r3', '/tmp/seed3out', 'r3
         fv = ev[caught[0]]['first_violation'] if caught else ''
         hm = re.search(r'harness=(ZZ_\w+)', fv)
         newh = bool(hm) and hm.group(1) not in OLD
-        late = rnd == 'r3' or sid in LATE
+        late = rnd in ('r3', 'r4') or sid in LATE
         if late:
             meta['check_before_strengthening'] = 'not run: this change was first evaluated after the harnesses of this session had been added'
             meta['detected_before_strengthening'] = None
